@@ -261,32 +261,62 @@ LifeOutputOK(S, c) ==
 (*   dirty    common.dirty                                                                *)
 (*   cached   what _pixman_image_validate derived from stored the last time it ran        *)
 (*   mdirty, mcached   the same two for alpha-map image A (only its accessors are varied)  *)
-(* Abstract values (the drivers map them to concrete arguments):                          *)
-(*   t   transform  0 NULL, 1 identity matrix passed by value, 2 translate, 3 scale, 4 projective *)
-(*   f   filter     0 nearest, 1 bilinear, 2 convolution A, 3 convolution A from another   *)
-(*                  buffer, 4 convolution B from the buffer of 2, 5 separable convolution  *)
-(*   r   repeat     0 none, 1 normal, 2 pad, 3 reflect                                     *)
-(*   c   clip       0 NULL, 1 one rectangle, 2 two rectangles                              *)
-(*   sc  source clipping, cc has_client_clip, ca component alpha, acc accessors: 0 / 1     *)
-(*   am  alpha map  0 none, 1 image A, 2 image B;  ao its origin 0 / 1                     *)
-(*   pal palette    0 none, 1, 2 (indexed formats)                                         *)
-(*   d   dither     0 none, 1, 2;  dof dither offset 0 / 1                                 *)
-(*   ma  accessors of alpha-map image A: 0 / 1 (a property of the attached image that      *)
-(*       the holder's validate must pick up)                                              *)
+(* Abstract values (the drivers map them to concrete arguments).  Where a setter's early-return  *)
+(* guard compares a compound value (a matrix, a parameter array, a pair of offsets), the value    *)
+(* set contains a base value and values that differ from it in ONE field only, for every field:   *)
+(* a guard that compares fewer fields than there are keeps a stale value for one of them.         *)
+(*   t   transform  0 NULL, 1 identity matrix passed by value, 2 a base matrix M,                 *)
+(*                  2 + k (k = 1..9) M with only its k-th entry (row-major) changed               *)
+(*   f   filter     0 nearest, 1 bilinear,                                                        *)
+(*                  2 convolution kernel K (3x3), 3 K passed from another buffer, 4 / 5 / 6 K     *)
+(*                  with only its first / a middle / its last coefficient changed, 7 a kernel of  *)
+(*                  another size, 8 separable convolution S, 9 / 10 / 11 S with only its first /  *)
+(*                  a middle / its last tap changed (same header, same size)                      *)
+(*   r   repeat     0 none, 1 normal, 2 pad, 3 reflect                                            *)
+(*   c   clip       0 NULL, 1 one rectangle, 2 two rectangles, 3 / 4 the same two with only the   *)
+(*                  last / the first rectangle changed                                            *)
+(*   sc  source clipping, cc has_client_clip, ca component alpha, acc accessors: 0 / 1            *)
+(*   am  alpha map  0 none, 1 image A, 2 image B;  ao its origin (x, y): bit 0 changes x, bit 1 y *)
+(*   pal palette    0 none, 1, 2, 3 = the contents of 1 at another address (indexed formats)      *)
+(*   d   dither     0 none, 1, 2;  dof dither offset (x, y): bit 0 changes x, bit 1 changes y     *)
+(*   ma  accessors of alpha-map image A: 0 / 1 (a property of the attached image that the         *)
+(*       holder's validate must pick up)                                                          *)
 PropNames == {"t", "f", "r", "c", "sc", "cc", "am", "ao", "ca", "acc", "pal", "d", "dof", "ma"}
 PropRange(n) ==
-    CASE n = "t" -> 0..4 [] n = "f" -> 0..5 [] n = "r" -> 0..3 [] n = "c" -> 0..2
-      [] n = "am" -> 0..2 [] n = "pal" -> 1..2 [] n = "d" -> 0..2
+    CASE n = "t" -> 0..11 [] n = "f" -> 0..11 [] n = "r" -> 0..3 [] n = "c" -> 0..4
+      [] n = "am" -> 0..2 [] n = "ao" -> 0..3 [] n = "pal" -> 1..3 [] n = "d" -> 0..2 [] n = "dof" -> 0..3
       [] OTHER -> 0..1
 Defaults == [t |-> 0, f |-> 0, r |-> 0, c |-> 0, sc |-> 0, cc |-> 0, am |-> 0, ao |-> 0, ca |-> 0, acc |-> 0,
              pal |-> 0, d |-> 0, dof |-> 0, ma |-> 0]
 
-(* the value a property has once v was set: an identity matrix is no transform; convolution A is *)
-(* convolution A whatever buffer it was passed in                                               *)
-Norm(n, v) == IF n = "t" /\ v = 1 THEN 0 ELSE IF n = "f" /\ v = 3 THEN 2 ELSE v
-NormAll(w) == [n \in DOMAIN w |-> Norm(n, w[n])]
+(* the fields of a compound value, in the order in which they lie in memory *)
+FilterFields(v) ==
+    CASE v = 0 -> <<"nearest">> [] v = 1 -> <<"bilinear">>
+      [] v \in {2, 3} -> <<"conv", 3, 0, 0, 0>> [] v = 4 -> <<"conv", 3, 1, 0, 0>>
+      [] v = 5 -> <<"conv", 3, 0, 1, 0>> [] v = 6 -> <<"conv", 3, 0, 0, 1>>
+      [] v = 7 -> <<"conv", 1, 0, 0, 0>>
+      [] v = 8 -> <<"sep", 2, 0, 0, 0>> [] v = 9 -> <<"sep", 2, 1, 0, 0>>
+      [] v = 10 -> <<"sep", 2, 0, 1, 0>> [] v = 11 -> <<"sep", 2, 0, 0, 1>>
+ClipFields(v) ==
+    CASE v = 0 -> <<>> [] v = 1 -> <<"r">> [] v = 2 -> <<"a", "b">> [] v = 3 -> <<"a", "b2">> [] v = 4 -> <<"a2", "b">>
+Fields(n, v) ==
+    CASE n = "t" -> (IF v <= 1 THEN <<"none">> ELSE [k \in 1..9 |-> IF v = 2 + k THEN 1 ELSE 0])
+      [] n = "f" -> FilterFields(v)
+      [] n = "c" -> ClipFields(v)
+      [] n \in {"ao", "dof"} -> <<v % 2, v \div 2>>
+      [] OTHER -> <<v>>
 
-FilterKind(f) == IF f \in {2, 3, 4} THEN 2 ELSE f
+(* the value a property has once v was set: an identity matrix is no transform; kernel K is kernel K  *)
+(* whatever buffer it was passed in.  (ASSUME: Norm identifies exactly the values with equal fields.) *)
+Norm(n, v) == IF n = "t" /\ v = 1 THEN 0 ELSE IF n = "f" /\ v = 3 THEN 2 ELSE v
+ASSUME \A n \in PropNames : \A u, v \in PropRange(n) \cup {0} :
+          (Fields(n, u) = Fields(n, v)) <=> (Norm(n, u) = Norm(n, v))
+NormAll(w) == [n \in DOMAIN w |-> Norm(n, w[n])]
+(* two palettes with the same contents render alike although the image stores a different pointer *)
+Canon(n, v) == IF n = "pal" /\ v = 3 THEN 1 ELSE Norm(n, v)
+CanonAll(w) == [n \in DOMAIN w |-> Canon(n, w[n])]
+
+FilterKind(f) == Fields("f", f)[1]
 (* what validate computes: compute_image_info (flags, extended format code) depends on the      *)
 (* transform, the filter kind, repeat, component alpha, accessors, presence of an alpha map;    *)
 (* property_changed sets up the accessor functions (bits) or the sentinel stops (gradients,     *)
@@ -303,17 +333,25 @@ PropInit(type) ==
      mdirty |-> TRUE, mcached |-> 0]        \* image A's own dirty flag and accessor set-up
 
 (* the early-return guards of the setters, as in pixman-image.c *)
+Prefix(q, k) == SubSeq(q, 1, IF k < Len(q) THEN k ELSE Len(q))
 EarlyReturn(P, n, v) ==
     LET cur == P.stored[n] IN
-    CASE n = "t" ->   \* pointer equality (both NULL), or same matrix as the stored copy
+    CASE n = "t" ->   \* pointer equality (both NULL), or memcmp of the whole matrix with the stored copy
               \/ v = 0 /\ cur = 0
-              \/ Norm(n, v) # 0 /\ (IF "guard_transform_class" \in Bugs THEN cur # 0 ELSE cur = Norm(n, v))
+              \/ /\ Norm(n, v) # 0 /\ cur # 0
+                 /\ IF "guard_transform_class" \in Bugs THEN TRUE
+                    ELSE IF "guard_transform_prefix" \in Bugs THEN Prefix(Fields(n, v), 6) = Prefix(Fields(n, cur), 6)
+                    ELSE Fields(n, v) = Fields(n, cur)
       [] n = "f" ->   \* params == common->filter_params && filter == common->filter: only NULL params can be equal
               IF "guard_filter_kind" \in Bugs THEN FilterKind(v) = FilterKind(cur)
+              ELSE IF "guard_filter_prefix" \in Bugs      \* "already in effect", comparing kind, size, first coefficient
+              THEN Prefix(Fields(n, v), 3) = Prefix(Fields(n, cur), 3)
               ELSE v \in {0, 1} /\ cur = v
-      [] n \in {"r", "sc", "ca", "pal", "d", "dof"} -> cur = v
+      [] n = "dof" -> IF "guard_dof_x_only" \in Bugs THEN Fields(n, v)[1] = Fields(n, cur)[1] ELSE cur = v
+      [] n = "pal" -> cur = v                 \* the pointer is compared (and stored), not the contents
+      [] n \in {"r", "sc", "ca", "d"} -> cur = v
       [] n = "ma" -> FALSE
-      [] OTHER -> FALSE          \* clip, has_client_clip, alpha map, accessors: never return early
+      [] OTHER -> FALSE          \* clip, has_client_clip, alpha map and its origin, accessors: never return early
 
 MarksDirty(P, n) ==
     /\ n # "cc"                          \* set_has_client_clip: nothing derived depends on it
